@@ -211,6 +211,30 @@ func derivedRegex(rng *Rng, names []string) string {
 	return q
 }
 
+// degenerateTwins: option sets that differ from f only on a dimension f leaves open, by a list that selects nothing on
+// that dimension (every included entry is also excluded) or that is present but empty
+func degenerateTwins(rng *Rng, f FilterSpec, names, srcs []string) []FilterSpec {
+	var out []FilterSpec
+	if len(f.IncludeSources) == 0 && len(f.ExcludeSources) == 0 {
+		a, b := pick(rng, srcs), pick(rng, srcs)
+		t := f
+		t.NilLists = false
+		t.IncludeSources, t.ExcludeSources = []string{a}, []string{a, b}
+		out = append(out, t)
+		t2 := f
+		t2.NilLists = false
+		t2.IncludeSources, t2.ExcludeSources = []string{}, []string{}
+		out = append(out, t2)
+	}
+	if len(f.IncludeNames) == 0 && len(f.ExcludeNames) == 0 && f.Regex == "" {
+		a := pick(rng, names)
+		t := f
+		t.IncludeNames, t.ExcludeNames = []string{a}, []string{a, pick(rng, names)}
+		out = append(out, t)
+	}
+	return out
+}
+
 func randomFilterSpec(rng *Rng, names, srcs []string, few bool) FilterSpec {
 	var f FilterSpec
 	f.NilLists = rng.Bool()
@@ -407,7 +431,15 @@ func init() {
 				FilterSpec{ExcludeSources: []string{"Mozilla"}})
 		}
 		for i := 0; i < n; i++ {
-			specs = append(specs, randomFilterSpec(rng, names, srcs, i%3 != 0))
+			f := randomFilterSpec(rng, names, srcs, i%3 != 0)
+			specs = append(specs, f)
+			// histories: the same registry is asked again with options that differ from f only by a degenerate list (present
+			// but empty, or included entries all excluded as well) - before and after f itself
+			if i%2 == 0 {
+				for _, tw := range degenerateTwins(rng, f, names, srcs) {
+					specs = append(specs, tw, f)
+				}
+			}
 		}
 		seen := map[string]bool{}
 		for _, f := range specs {
